@@ -539,6 +539,11 @@ func (g *graph) updateToValidateMap() error {
 				if startNodeOutputType == nil && endNodeInputType == nil {
 					continue
 				}
+				if len(endNode.mappings) > 0 && (startNodeOutputType == nil || endNodeInputType == nil) {
+					// field mappings connect different types: a pass-through node is never typed across a mapped edge
+					// (which edge is resolved first depends on map iteration); the edge waits until both ends are typed
+					continue
+				}
 
 				// update toValidateMap
 				g.toValidateMap[startNode] = append(g.toValidateMap[startNode][:i], g.toValidateMap[startNode][i+1:]...)
